@@ -9,7 +9,11 @@ na_path = os.path.join(ROOT, 'tools', 'not_applicable.json')
 if os.path.exists(na_path):
     NA_REASON = json.load(open(na_path))
 
+CLAIMED = json.load(open(os.path.join(ROOT, 'tools', 'claimed.json')))
+
 def meta(pid):
+    if pid not in CLAIMED:
+        return None
     path = os.path.join(ROOT, 'vmon', 'props', pid.lower() + '.py')
     if not os.path.exists(path):
         return None
